@@ -13,8 +13,12 @@ func (c *Conversation) akeHasFinished() error {
 	c.ssid = c.ake.ssid
 	c.sentRevealSig = c.ake.sentRevealSig
 
+	// the key pairs of a session that this exchange replaces are all retired here: the receiving MAC keys
+	// used under them are revealed with the next data message, like those of any other retired key pair
+	retired := c.keys.retireAllMACKeys()
 	c.keys.wipe()
 	c.keys = c.ake.keys
+	c.keys.oldMACKeys = append(retired, c.keys.oldMACKeys...)
 	c.ake.wipe(false)
 
 	previousMsgState := c.msgState
@@ -75,6 +79,13 @@ func (c *Conversation) retransmitAfterAKE() []messageWithHeader {
 	}
 
 	toSend, _ := c.maybeRetransmit()
+	if len(toSend) == 0 && len(c.keys.oldMACKeys) > 0 {
+		// MAC keys of a session this exchange has replaced wait to be revealed: do not keep them
+		// until the user happens to write something
+		if hb, err := c.heartbeatMessage(); err == nil {
+			toSend = append(toSend, hb)
+		}
+	}
 	return toSend
 }
 
